@@ -1,15 +1,11 @@
 use crate::debugger::address::RelocatedAddress;
 use crate::debugger::debugee::dwarf::EndianArcSlice;
-use crate::debugger::debugee::dwarf::eval::{AddressKind, ExpressionEvaluator};
 use crate::debugger::debugee::{Debugee, Location};
 use crate::debugger::error::Error;
-use crate::debugger::error::Error::{
-    TypeBinaryRepr, UnitNotFound, UnwindNoContext, UnwindTooDeepFrame,
-};
+use crate::debugger::error::Error::{TypeBinaryRepr, UnwindNoContext, UnwindTooDeepFrame};
 use crate::debugger::register::{DwarfRegisterMap, Register, RegisterMap};
-use crate::debugger::utils::TryGetOrInsert;
 use crate::debugger::{ExplorationContext, PlaceDescriptorOwned};
-use crate::{debugger, resolve_unit_call, weak_error};
+use crate::{debugger, weak_error};
 use gimli::{DebugFrame, EhFrame, FrameDescriptionEntry, RegisterRule, UnwindSection};
 use log::warn;
 use nix::unistd::Pid;
@@ -113,6 +109,65 @@ pub fn return_addr(debugee: &Debugee, pid: Pid) -> Result<Option<RelocatedAddres
     unwinder.return_address(pid)
 }
 
+/// Evaluate an expression of a call frame instruction (`DW_CFA_def_cfa_expression`,
+/// `DW_CFA_expression`, `DW_CFA_val_expression`).
+///
+/// Such expression speaks about registers of the frame being unwound and about debugee memory
+/// only, so there is no need in a debug information unit for the evaluation (objects like libc have
+/// unwind tables but no debug information; a signal trampoline is described by expressions only).
+///
+/// # Arguments
+///
+/// * `expr`: expression
+/// * `encoding`: encoding of the CIE that contains the expression
+/// * `initial`: a value that is on the stack when the evaluation starts (CFA for register rules)
+/// * `registers`: registers of the frame being unwound
+/// * `pid`: thread for reading memory
+///
+/// Returns a value on the top of the stack: an address or a value, according to the rule kind.
+pub(super) fn evaluate_cfi_expression(
+    expr: gimli::Expression<EndianArcSlice>,
+    encoding: gimli::Encoding,
+    initial: Option<u64>,
+    registers: &DwarfRegisterMap,
+    pid: Pid,
+) -> Option<u64> {
+    use gimli::{EvaluationResult, Value};
+
+    let mut eval = expr.evaluation(encoding);
+    if let Some(initial) = initial {
+        eval.set_initial_value(initial);
+    }
+    let mut result = weak_error!(eval.evaluate())?;
+    loop {
+        result = match result {
+            EvaluationResult::Complete => break,
+            EvaluationResult::RequiresRegister { register, .. } => {
+                let value = weak_error!(registers.value(register))?;
+                weak_error!(eval.resume_with_register(Value::Generic(value)))?
+            }
+            EvaluationResult::RequiresMemory { address, size, .. } => {
+                let size = size as usize;
+                if size == 0 || size > mem::size_of::<u64>() {
+                    return None;
+                }
+                let memory = weak_error!(debugger::read_memory_by_pid(pid, address as usize, size))?;
+                let mut buf = [0u8; mem::size_of::<u64>()];
+                buf[..memory.len().min(size)].copy_from_slice(&memory[..memory.len().min(size)]);
+                weak_error!(eval.resume_with_memory(Value::Generic(u64::from_le_bytes(buf))))?
+            }
+            // anything else has no meaning in a call frame instruction
+            _ => return None,
+        };
+    }
+
+    match eval.result().first()?.location {
+        gimli::Location::Address { address } => Some(address),
+        gimli::Location::Value { value } => weak_error!(value.to_u64(u64::MAX)),
+        _ => None,
+    }
+}
+
 /// UnwindContext (or ucx) contains information for unwinding single frame.  
 pub struct UnwindContext<'a> {
     registers: DwarfRegisterMap,
@@ -171,22 +226,12 @@ impl<'a> UnwindContext<'a> {
             }
             Err(e) => return Err(e.into()),
         };
-        let cfa = dwarf.evaluate_cfa(debugee, &registers_snap, row, ecx)?;
+        let encoding = fde.cie().encoding();
+        let cfa = dwarf.evaluate_cfa(&registers_snap, row, encoding, ecx.pid_on_focus())?;
         let ra_register = fde.cie().return_address_register();
         let outermost = row
             .registers()
             .any(|(reg, rule)| *reg == ra_register && matches!(rule, RegisterRule::Undefined));
-
-        let mut lazy_evaluator = None;
-        let evaluator_init_fn = || -> Result<ExpressionEvaluator, Error> {
-            let unit = dwarf
-                .find_unit_by_pc(ecx.location().global_pc)?
-                .ok_or(UnitNotFound(ecx.location().global_pc))?;
-
-            let evaluator =
-                resolve_unit_call!(&dwarf.inner, unit, evaluator, debugee, dwarf.dwarf());
-            Ok(evaluator)
-        };
 
         let read_register_value = |addr: RelocatedAddress| -> Option<u64> {
             let bytes = weak_error!(debugger::read_memory_by_pid(
@@ -215,21 +260,24 @@ impl<'a> UnwindContext<'a> {
                     RegisterRule::Register(reg) => weak_error!(registers_snap.value(*reg))?,
                     RegisterRule::Expression(expr) => {
                         let expr = weak_error!(expr.get(&dwarf.eh_frame))?;
-                        let evaluator =
-                            weak_error!(lazy_evaluator.try_get_or_insert_with(evaluator_init_fn))?;
-                        let expr_result = weak_error!(evaluator.evaluate(ecx, expr))?;
-                        let addr = weak_error!(
-                            expr_result.into_scalar::<usize>(AddressKind::MemoryAddress)
+                        let addr = evaluate_cfi_expression(
+                            expr,
+                            encoding,
+                            Some(usize::from(cfa) as u64),
+                            &registers_snap,
+                            ecx.pid_on_focus(),
                         )?;
-                        read_register_value(RelocatedAddress::from(addr))?
+                        read_register_value(RelocatedAddress::from(addr as usize))?
                     }
                     RegisterRule::ValExpression(expr) => {
                         let expr = weak_error!(expr.get(&dwarf.eh_frame))?;
-                        let evaluator =
-                            weak_error!(lazy_evaluator.try_get_or_insert_with(evaluator_init_fn))?;
-                        let expr_result = weak_error!(evaluator.evaluate(ecx, expr.clone()))?;
-                        weak_error!(expr_result.into_scalar::<usize>(AddressKind::MemoryAddress))?
-                            as u64
+                        evaluate_cfi_expression(
+                            expr,
+                            encoding,
+                            Some(usize::from(cfa) as u64),
+                            &registers_snap,
+                            ecx.pid_on_focus(),
+                        )?
                     }
                     RegisterRule::Architectural => return None,
                     RegisterRule::Constant(val) => *val,
